@@ -126,7 +126,8 @@ Fixpoint refw_run (interval : Z) (s : refw) (ops : list xop) : list obs :=
   | o :: ops' => let (s', r) := refw_step interval s o in r :: refw_run interval s' ops'
   end.
 
-(* the property's quantifier: expiries of at least one wheel interval *)
+(* expiries of at least one wheel interval (below that the wheel clamps to one interval;
+   [refw_put] says so and [prop_ok] holds the implementation to it for every expiry) *)
 Definition xop_in_scope (interval : Z) (o : xop) : bool :=
   match o with
   | XSet _ _ d => interval <=? d
@@ -201,7 +202,7 @@ Definition prop_ok (c : case) : bool :=
     same false (s_run (s_new limit) ops) seen &&
     (if 0 <? limit then probe_ok limit ops seen else true)
   | KCacheW limit slots interval mv ops seen =>
-    if (1 <=? slots) && (1 <=? interval) && forallb (xop_in_scope interval) ops then
+    if (1 <=? slots) && (1 <=? interval) then
       same false (refw_run interval (mkRefW (s_new limit) []) ops) seen
     else true
   end.
